@@ -890,7 +890,11 @@ def lazy_state_rule(ctx: Ctx, functions, rule: str = "LAZY") -> int:
             in_loop = any(isinstance(a, (ast.For, ast.While)) and st not in list(ast.walk(a)) for u in uses for a in ancestors(u)
                           if not (isinstance(a, ast.For) and a.iter is u))
             n += 1
-            if len(stores) == 1 and (len(uses) > 1 or in_loop):
+            # an explicit cursor -- `it = iter(xs)` taken from only by `next(it)` -- is meant to be consumed piecewise
+            cursor = isinstance(st.value, ast.Call) and st.value.func.id == "iter" and all(
+                isinstance(getattr(u, "_parent", None), ast.Call) and isinstance(u._parent.func, ast.Name) and u._parent.func.id == "next" and u._parent.args[0] is u
+                for u in uses)
+            if len(stores) == 1 and (len(uses) > 1 or in_loop) and not cursor:
                 bad.append((fi, st, "local"))
     ctx.check(not bad, rule, f"no attribute holds a one-shot iterator ({n} attribute stores inspected)",
               function=bad[0][0].qualname if bad else "*",
